@@ -113,7 +113,9 @@ def run_ext(run):
                     b = [rng.randint(11, 13)]     # more members than one decimal digit counts
                 td = gen(rng, kind, b)
                 ref = canon(td, **OPTS)
-                for api in ("memmap", "memmap_", "save"):
+                for api in ("memmap", "memmap_", "save", "memmap(share_non_tensor)"):
+                    if api == "memmap(share_non_tensor)" and kind not in ("tensorclass", "tensorclass-nested", "nontensor-stack", "lazy-dim1", "lazy-in-lazy"):
+                        continue
                     for nt in (0, rng.choice([1, 2, 4, 8])):
                         d = root / f"x{it}_{api}_{nt}"
                         run.case(("ext", it, kind, api, nt))
@@ -122,7 +124,7 @@ def run_ext(run):
                         try:
                             with time_limit(180):
                                 src = td.clone() if api == "memmap_" else td
-                                out = getattr(src, api)(d, num_threads=nt)
+                                out = src.memmap(d, num_threads=nt, share_non_tensor=True) if api == "memmap(share_non_tensor)" else getattr(src, api)(d, num_threads=nt)
                                 got_saved = canon(out if out is not None else src, **OPTS)
                                 loaded = type(td).load_memmap(d) if kind == "tensorclass" else TensorDict.load_memmap(d)
                                 got = canon(loaded, **OPTS)
@@ -152,6 +154,32 @@ def run_ext(run):
                                 else:
                                     run.oracle_fail(f"reader({method})", case, f"a {method}ed reader sees {cd}", f"{kind}:reader:{method}")
                         shutil.rmtree(d, ignore_errors=True)
+                # memmap_like: the same structure (keys, nesting, kinds, batch sizes, dtypes, shapes, non-tensor payloads), contentless
+                def skeleton(c):
+                    if isinstance(c, list):
+                        if c and c[0] == "T":
+                            return c[:4]
+                        if c and c[0] == "NJT":
+                            return c[:3]
+                        return [skeleton(x) for x in c]
+                    return c
+                d = root / f"x{it}_like"
+                run.case(("ext-like", it, kind))
+                try:
+                    with time_limit(180):
+                        nt_ = rng.choice([0, 2])
+                        like = td.memmap_like(d, num_threads=nt_)
+                        loaded = type(td).load_memmap(d) if kind == "tensorclass" else TensorDict.load_memmap(d)
+                    diff = first_diff(skeleton(ref), skeleton(canon(loaded, **OPTS))) or first_diff(skeleton(ref), skeleton(canon(like, **OPTS)))
+                except TimeoutError as e:
+                    raise Infra(f"memmap_like timed out: {e}")
+                except Exception as e:  # noqa: BLE001
+                    diff = f"raised {type(e).__name__}: {str(e)[:150]}"
+                if diff is None:
+                    run.oracle_ok("memmap_like_structure(ext)")
+                else:
+                    run.oracle_fail("memmap_like_structure(ext)", {"kind": kind, "batch": b}, f"memmap_like of a {kind} tensordict: {diff}", f"{kind}:memmap_like")
+                shutil.rmtree(d, ignore_errors=True)
             # ---- a writer task that fails makes the save fail, whatever the number of threads (same outcome as num_threads=0)
             for it in range(6 if quick else 24):
                 b = rng.choice([[2], [3]])
@@ -236,6 +264,25 @@ def run_ext(run):
                     else:
                         run.oracle_fail(f"write_through(sent to a {method} process)", case,
                                         f"write made through the memory-mapped tensordict sent to a {method}ed process: (still memmap there, saver mapping, second mapping, later load) = {seen}", f"write-sent:{method}")
+                    # one ROW of the memory-mapped tensordict sent to the other process (its leaves are indexed views of the files: they
+                    # travel as (file name, shape of the file, index)): a write made there lands in that row of the files, and only there
+                    rval = it + 70
+                    try:
+                        with time_limit(120):
+                            before_rows = saved["a"].clone()
+                            pool.apply(write_td_in_child, (saved[1], "a", float(rval)))
+                            want_rows = before_rows.clone()
+                            want_rows[1] = float(rval)
+                        seen = [bool((saved["a"] == want_rows).all()), bool((TensorDict.load_memmap(d)["a"] == want_rows).all())]
+                    except TimeoutError as e:
+                        raise Infra(f"child writer timed out: {e}")
+                    except Exception as e:  # noqa: BLE001
+                        seen = [f"raised {type(e).__name__}: {e}"]
+                    if seen == [True, True]:
+                        run.oracle_ok(f"write_through(row sent to a {method} process)")
+                    else:
+                        run.oracle_fail(f"write_through(row sent to a {method} process)", case,
+                                        f"write made through row 1 of the memory-mapped tensordict sent to a {method}ed process: (saver mapping, later load) = {seen}", f"write-row-sent:{method}")
                 # load_memmap_ into an existing structure, memmap_refresh_ after make_memmap elsewhere
                 try:
                     dest = td.apply(lambda x: torch.zeros_like(x))
